@@ -31,6 +31,16 @@ CLAIMS = {
             'mis-nested headers/trailers must yield an error by the time all envelopes are closed.',
             'Trusted: CrossHair, z3, the invariant (base case checked concretely), the recount oracle. Counters <= 3, ids one character, count tokens from 11 classes.',
             'DESIGN.md §5 C04'),
+    'C11': ('model_checking', 'inductive step over the writer state machine: bounded symbolic execution (CrossHair+z3) of Write/Close from an arbitrary invariant state',
+            'One Write or Close from an ARBITRARY invariant state (symbolic counts, symbolic choice of supplied trailer id/count, delimiters) must emit exactly the generated trailers '
+            '(innermost first, header id, true count) followed by the segment unless it is a trailer, and re-establish the invariant; real writer output is read back by the real reader in the composition obligations.',
+            'Trusted: CrossHair, z3, the invariant, the expected-text oracle. Control numbers and data values are symbolic choices from small tables because str.format in the code under test concretises symbolic strings.',
+            'DESIGN.md §5 C11'),
+    'C01': ('other', 'bounded symbolic execution (CrossHair+z3) of RawX12File, X12Reader.__iter__ and Segment with a symbolic read schedule',
+            'The stream stub hands out symbolically short reads, the buffer size is patched to 1..3 so every alignment of terminator/CR/LF and refill boundary is reached with short bodies, '
+            'the body is an arbitrary symbolic string, delimiters are symbolic; the yielded lines and the element/component split are compared with a three-line reference.',
+            'Trusted: CrossHair, z3, the Stream/open stubs, the reference splitter. Bodies <= 3 (4) characters; format/re-read round trip over the structural alphabet only (CrossHair mis-models re-splitting a %-formatted symbolic string).',
+            'DESIGN.md §5 C01'),
 }
 
 NOT_YET = 'check not built yet in this round (planned: see DESIGN.md §5)'
